@@ -239,6 +239,8 @@ def main():
     if a.tier not in ('quick', 'thorough'):
         a.tier = 'quick'
     seed = int(os.environ.get('VERIF_SEED', '0') or 0)
+    if a.tier == 'thorough':
+        os.environ.setdefault('PYVC_XCHECK', '40')  # more CPython cross-check samples per entry (inherited by the workers)
     prop = a.prop
     t_start = time.time()
     from . import contracts as C
